@@ -200,6 +200,7 @@ func TestVerifC17(t *testing.T) {
 			cr := c17NewReader(s, [3]bool{true, false, false}, 0)
 			cr.block = make(chan struct{})
 			cr.entered = make(chan struct{}, 1)
+			cr.r.SkipOutboundBytes = rep%2 == 1 // readers like the recorder and the HLS muxer: their skipped units are counted all the same
 			s.strm.AddReader(cr.r)
 			extra := 1 + rng.IntN(20)
 			s.ss.WriteUnit(s.fmedia[0], s.fmts[0], &unit.Unit{PTS: 0, Payload: c17Payload(0, 1)})
@@ -224,7 +225,7 @@ func TestVerifC17(t *testing.T) {
 			cr.removed.Store(true)
 			r.Eval(fmt.Sprintf("A|%d|%d", q, extra))
 			if disc != uint64(extra) {
-				r.Violation("discard-count", fmt.Sprintf("queue %d, reader blocked in its first callback, %d units written: %d counted as discarded, expected %d (units are skipped only when the queue is full, each one counted)", q, total, disc, extra), nil)
+				r.Violation("discard-count", fmt.Sprintf("queue %d, reader (SkipOutboundBytes=%v) blocked in its first callback, %d units written: %d counted as discarded, expected %d (units are skipped only when the queue is full, each one counted)", q, cr.r.SkipOutboundBytes, total, disc, extra), nil)
 			}
 			if got := cr.delivered(); got != 1+q {
 				r.Violation("blocked-reader-delivery", fmt.Sprintf("queue %d: %d units delivered after unblocking, expected %d", q, got, 1+q), nil)
@@ -252,6 +253,7 @@ func TestVerifC17(t *testing.T) {
 				slow = time.Duration(50+rng.IntN(300)) * time.Microsecond
 			}
 			cr := c17NewReader(s, subs, slow)
+			cr.r.SkipOutboundBytes = rng.IntN(3) == 0
 			s.strm.AddReader(cr.r)
 			readers = append(readers, cr)
 		}
@@ -382,6 +384,169 @@ func TestVerifC17(t *testing.T) {
 		r.Eval(fmt.Sprintf("C|%d|%d", ci, q))
 		s.strm.Close()
 	}
-	r.Finish("real stream.Stream with 3 formats in 2 medias (one media with two formats). A: reader blocked in its first callback, queue 1..64: discarded counter must equal exactly the units beyond 1+queue, and exactly 1+queue are delivered after unblocking. B: 1..4 readers with random subscriptions and speeds, 50..450 units, then quiescence: delivered + discarded == written to subscribed formats (exact), per-format counters strictly increasing, payload intact, never another format. C: a publisher writes while 3 goroutines add/remove 36 readers; hook delays before callbacks and between unlock and stop in RemoveReader: ordering, subscriptions, and no callback after RemoveReader returned. non-trivial = distinct scenario instance",
+	// D. units waiting in a reader's queue are not modified by what the publisher sends later: key frames with in-band
+	// parameter changes (same, shorter and longer parameter sets) while one reader is blocked; a second reader that is
+	// served at once takes a deep copy of every unit as delivered, the blocked reader compares when it finally runs
+	nD := r.N(30, 600)
+	for di := 0; di < nD; di++ {
+		c17Queued(t, r, rng, di)
+	}
+	r.Finish("real stream.Stream with 3 formats in 2 medias (one media with two formats). A: reader blocked in its first callback, queue 1..64: discarded counter must equal exactly the units beyond 1+queue, and exactly 1+queue are delivered after unblocking. B: 1..4 readers with random subscriptions and speeds, 50..450 units, then quiescence: delivered + discarded == written to subscribed formats (exact), per-format counters strictly increasing, payload intact, never another format. C: a publisher writes while 3 goroutines add/remove 36 readers; hook delays before callbacks and between unlock and stop in RemoveReader: ordering, subscriptions, and no callback after RemoveReader returned. D: H264 / H265 key frames with in-band parameter sets that change from unit to unit (equal, shorter, longer) and key frames without parameters (the remuxer adds the current ones), one reader blocked with the units queued, one reader served at once that deep-copies every unit: when the blocked reader runs, every queued unit must equal the copy taken when it was delivered to the other reader. Readers with and without SkipOutboundBytes in A and B. non-trivial = distinct scenario instance",
 		"quiescence is awaited with a 30 s watchdog; a unit neither delivered nor counted by then is a loss (the reader goroutine has nothing else to do); run under the race detector")
+}
+
+
+func c17Flat(p unit.Payload) [][]byte {
+	switch p := p.(type) {
+	case unit.PayloadH264:
+		return p
+	case unit.PayloadH265:
+		return p
+	}
+	return nil
+}
+
+func c17Queued(t *testing.T, r *vmon.Run, rng *rand.Rand, di int) {
+	h265 := di%2 == 1
+	var f format.Format = &format.H264{PayloadTyp: 96, PacketizationMode: 1}
+	if h265 {
+		f = &format.H265{PayloadTyp: 96}
+	}
+	m := &description.Media{Type: description.MediaTypeVideo, Formats: []format.Format{f}}
+	strm := &Stream{OrigDesc: &description.Session{Medias: []*description.Media{m}}, WriteQueueSize: 64, RTPMaxPayloadSize: 1450, Parent: verifNilLog{}}
+	if err := strm.Initialize(); err != nil {
+		t.Fatal(err)
+	}
+	defer strm.Close()
+	ss := &SubStream{Stream: strm, UseRTPPackets: false}
+	if err := ss.Initialize(); err != nil {
+		t.Fatal(err)
+	}
+	copyOf := func(u *unit.Unit) [][]byte {
+		var out [][]byte
+		for _, x := range c17Flat(u.Payload) {
+			out = append(out, append([]byte(nil), x...))
+		}
+		return out
+	}
+	var mu sync.Mutex
+	var snaps [][][]byte // as delivered to the prompt reader
+	var late [][][]byte  // as seen by the blocked reader when it finally runs
+	prompt := &Reader{Parent: verifNilLog{}}
+	prompt.OnData(m, f, func(u *unit.Unit) error {
+		c := copyOf(u)
+		mu.Lock()
+		snaps = append(snaps, c)
+		mu.Unlock()
+		return nil
+	})
+	block := make(chan struct{})
+	entered := make(chan struct{}, 1)
+	blocked := &Reader{Parent: verifNilLog{}}
+	first := true
+	blocked.OnData(m, f, func(u *unit.Unit) error {
+		if first {
+			first = false
+			entered <- struct{}{}
+			<-block
+		}
+		c := copyOf(u)
+		mu.Lock()
+		late = append(late, c)
+		mu.Unlock()
+		return nil
+	})
+	strm.AddReader(prompt)
+	strm.AddReader(blocked)
+	defer strm.RemoveReader(prompt)
+	defer strm.RemoveReader(blocked)
+	param := func(hdr []byte, n int) []byte { return append(append([]byte(nil), hdr...), c23NZ(rng, 0x11, n)...) }
+	n := 8 + rng.IntN(40)
+	lens := [3]int{4 + rng.IntN(20), 3 + rng.IntN(8), 3 + rng.IntN(8)}
+	changes := 0
+	for k := 0; k < n; k++ {
+		var au [][]byte
+		withParams := k == 0 || rng.IntN(3) != 0
+		if withParams {
+			for i := range lens { // next parameter sets: same length, shorter or longer
+				switch rng.IntN(4) {
+				case 0:
+					lens[i] = max(2, lens[i]-1-rng.IntN(3))
+				case 1:
+					lens[i] += 1 + rng.IntN(4)
+				}
+			}
+			changes++
+			if h265 {
+				au = append(au, param([]byte{0x40, 0x01}, lens[0]), param([]byte{0x42, 0x01}, lens[1]), param([]byte{0x44, 0x01}, lens[2]))
+			} else {
+				au = append(au, param([]byte{0x67}, lens[0]), param([]byte{0x68}, lens[1]))
+			}
+		}
+		idr := c23NZ(rng, 0x65, 4+rng.IntN(30))
+		if h265 {
+			idr = append([]byte{0x26, 0x01}, c23NZ(rng, 0x11, 4+rng.IntN(30))...)
+		}
+		if rng.IntN(5) == 0 { // a non-key frame in between
+			idr[0] = 0x41
+			if h265 {
+				idr[0] = 0x02
+			}
+			au = nil
+		}
+		au = append(au, idr)
+		var pl unit.Payload = unit.PayloadH264(au)
+		if h265 {
+			pl = unit.PayloadH265(au)
+		}
+		ss.WriteUnit(m, f, &unit.Unit{PTS: int64(k) * 3000, Payload: pl})
+		if k == 0 {
+			select {
+			case <-entered:
+			case <-time.After(20 * time.Second):
+				r.Inconclusive("scenario D: first callback not entered within 20 s")
+				close(block)
+				return
+			}
+		}
+		// the prompt reader has taken its copy before the next unit is written
+		dl := time.Now().Add(20 * time.Second)
+		for {
+			mu.Lock()
+			got := len(snaps)
+			mu.Unlock()
+			if got > k || time.Now().After(dl) {
+				break
+			}
+			time.Sleep(50 * time.Microsecond)
+		}
+	}
+	close(block)
+	dl := time.Now().Add(20 * time.Second)
+	for {
+		mu.Lock()
+		got := len(late)
+		mu.Unlock()
+		if got >= n || time.Now().After(dl) {
+			break
+		}
+		time.Sleep(200 * time.Microsecond)
+	}
+	mu.Lock()
+	defer mu.Unlock()
+	r.Eval(fmt.Sprintf("D|%d|%v|%d|%d", di, h265, n, changes))
+	r.Count("queued_units_compared", int64(min(len(late), len(snaps))))
+	if len(snaps) != n || len(late) != n {
+		r.Inconclusive(fmt.Sprintf("scenario D: %d units written, prompt reader got %d, blocked reader %d within the watchdog", n, len(snaps), len(late)))
+		return
+	}
+	for k := 0; k < n; k++ {
+		if !c22Equal(snaps[k], late[k]) {
+			r.Violation("unit-modified-while-queued", fmt.Sprintf("%s, %d key frames with in-band parameter changes: unit #%d was delivered as %s to a reader served at once, and as %s to a reader that had it waiting in its queue (units must reach every reader unmodified after remuxing)", map[bool]string{false: "H264", true: "H265"}[h265], changes, k, c22Show(snaps[k]), c22Show(late[k])), nil)
+			return
+		}
+	}
+	if r.WantSample() && di%9 == 0 {
+		r.Sample(map[string]any{"scenario": "queued units vs parameter changes", "codec": map[bool]string{false: "H264", true: "H265"}[h265], "units": n, "units_with_new_parameters": changes})
+	}
 }
